@@ -35,19 +35,25 @@ def run(c):
              expect="NeverStuck", name="sensitivity: unlocked, reader blocks in os.read")
 
     # ---- fileno() itself: several first callers at once (Fileno.tla)
-    fcon = lambda o, e, rc: {"Callers": {"A", "B"} if c.quick else {"A", "B", "C"}, "InitOut": o, "InitErr": e, "Feeds": 2, "Recheck": rc}
+    fcon = lambda o, e, rc, cmb=False, keep=False: {"Callers": {"A", "B"} if c.quick else {"A", "B", "C"}, "InitOut": o, "InitErr": e, "Feeds": 2,
+                                                    "Recheck": rc, "Combines": cmb, "EmptyKeepsEvent": keep}
     for (o, e) in [(1, 0), (0, 0)]:
         c.mc_holds("Fileno", cfg_text(constants=fcon(o, e, True), invariants=["DescriptorTracksData", "OneDescriptor"], deadlock=False),
                    name="concurrent fileno() init=%d,%d" % (o, e), workers=4)
     c.mc("Fileno", cfg_text(constants=fcon(0, 0, False), invariants=["DescriptorTracksData"], deadlock=False),
          expect="DescriptorTracksData", name="sensitivity: fileno() tests for the pipe before taking the lock", workers=4)
+    c.mc_holds("Fileno", cfg_text(constants=fcon(0, 1, True, cmb=True), invariants=["DescriptorTracksData", "OneDescriptor"], deadlock=False),
+               name="fileno(), then set_combine_stderr(True) and stdout drained", workers=4)
+    c.mc("Fileno", cfg_text(constants=fcon(0, 1, True, cmb=True, keep=True), invariants=["DescriptorTracksData"], deadlock=False),
+         expect="DescriptorTracksData", name="sensitivity: BufferedPipe.empty() leaves the event set", workers=4)
     fbatch, fmeta = [], []
     for pi, prog in enumerate(pipes.fileno_programs()):
-        for ex in pipes.fileno_explore(prog, "dfs", 1, 40 if c.quick else 150, c.seed):
+        cap = (10 if prog.get("R") else 40) if c.quick else 150
+        for ex in pipes.fileno_explore(prog, "dfs", 1, cap, c.seed):
             fbatch.append(ex.verdict)
             fmeta.append({"fileno_program": prog, "choices": ex.choices, "labels": ex.labels})
             c.case(key=("fn%d" % pi, tuple(ex.choices)))
-        for ex in pipes.fileno_explore(prog, "random", 0, 5 if c.quick else 30, c.seed * 77 + pi):
+        for ex in pipes.fileno_explore(prog, "random", 0, (2 if prog.get("R") else 5) if c.quick else 30, c.seed * 77 + pi):
             fbatch.append(ex.verdict)
             fmeta.append({"fileno_program": prog, "choices": ex.choices, "labels": ex.labels})
             c.case(key=("fnr%d" % pi, tuple(ex.choices)))
